@@ -468,6 +468,154 @@ Section Range.
     intros Hp E. unfold XMachine.xstep in E. rewrite Hp in E.
     step_cases3 E. cbn [set_pc g_pc norm]. destruct (Nat.eq_dec t t) as [_|Hc]; [|exfalso; apply Hc; reflexivity]. auto.
   Qed.
+
+  (* ---------------- completeness: a pair that stays visible in the traversed table is visited ---------------- *)
+
+  (* all visits of thread t in a trace *)
+  Fixpoint allvis (t : nat) (ls : list xlabel) : list (K * V) :=
+    match ls with
+    | [] => []
+    | XVisit u k v :: r => if Nat.eq_dec u t then (k, v) :: allvis t r else allvis t r
+    | _ :: r => allvis t r
+    end.
+
+  Lemma allvis_app t l1 l2 : allvis t (l1 ++ l2) = allvis t l1 ++ allvis t l2.
+  Proof.
+    induction l1 as [|l r IH]; [reflexivity|]. destruct l; cbn [app allvis]; try exact IH.
+    destruct (Nat.eq_dec t0 t); [cbn [app]; rewrite IH; reflexivity | exact IH].
+  Qed.
+
+  Lemma allvis_map t (snap : list (K * V)) : allvis t (map (fun kv => XVisit t (fst kv) (snd kv)) snap) = snap.
+  Proof.
+    induction snap as [|[k v] r IH]; [reflexivity|]. cbn [map allvis fst snd].
+    destruct (Nat.eq_dec t t) as [_|Hc]; [rewrite IH; reflexivity | exfalso; apply Hc; reflexivity].
+  Qed.
+
+  (* P holds in every state the run goes through *)
+  Fixpoint along (P : xstate -> Prop) (s : xstate) (sched : list nat) : Prop :=
+    P s /\ match sched with
+           | [] => True
+           | u :: r => match xstep s u with Some (s', _) => along P s' r | None => along P s r end
+           end.
+
+  Section Complete.
+    Variables (t tab : nat) (k : K) (v : V).
+
+    Definition JP (s : xstate) (acc : list xlabel) : Prop :=
+      In (k, v) (allvis t acc)
+      \/ match g_pc s t with
+         | PG_Lock tab' i => tab' = tab /\ (hm s tab k < i -> In (k, v) (allvis t acc))
+         | PG_Unlock tab' i snap =>
+             tab' = tab /\ (hm s tab k < i -> In (k, v) (allvis t acc)) /\ (hm s tab k = i -> In (k, v) snap)
+         | _ => False
+         end.
+
+    Lemma JP_step s acc u s' ls : XInv s -> XT s -> XC s -> vis (tab_at s tab) k v -> JP s acc ->
+      xstep s u = Some (s', ls) -> JP s' (acc ++ ls).
+    Proof.
+      intros HI HT HC Hvis [Hd|Hj] E.
+      { left. rewrite allvis_app. apply in_or_app. left. exact Hd. }
+      assert (Hnid : g_pc s t <> PIdle) by (intros Ei; rewrite Ei in Hj; exact Hj).
+      destruct (Nat.eq_dec u t) as [->|Hne].
+      - (* the traversing thread *)
+        assert (Ex : xstep s t = step_pc s t (g_pc s t)).
+        { unfold XMachine.xstep. destruct (g_pc s t); try reflexivity. exfalso. apply Hnid. reflexivity. }
+        rewrite Ex in E. pose proof (step_frame s t _ s' ls E) as Hfr.
+        pose proof (xi_valid _ _ _ _ s HI t) as Hv.
+        destruct (g_pc s t) eqn:Hp; try contradiction.
+        + (* PG_Lock: the bucket is free; its entries are taken *)
+          destruct Hj as [-> Hlt]. cbn [valid] in Hv. destruct Hv as [Hv1 Hv2].
+          step_cases3 E. rewrite ?goto_state3 in Hfr. cbn [norm] in Hfr.
+          right. cbn [set_pc g_pc norm]. destruct (Nat.eq_dec t t) as [_|Hc]; [|exfalso; apply Hc; reflexivity].
+          split; [reflexivity|]. rewrite (hm_frame s _ tab k Hfr Hv1). split.
+          * intros Hl. rewrite allvis_app. apply in_or_app. left. apply Hlt. exact Hl.
+          * intros Hi0.
+            assert (Hpub : forall w, newtab (g_pc s w) <> Some tab).
+            { intros w Ew. destruct (xt_new s HT w _ Ew) as [_ B]. pose proof (xt_le s HT t) as L. rewrite Hp in L. cbn [tabs_le] in L. lia. }
+            destruct (locked_settled s tab i HI HC Hv1 Hpub Hv2) as [_ S2].
+            { intros w cx pos v0. destruct (Nat.eq_dec (hm s tab (cx_k cx)) i) as [E0|E0]; [left|right; exact E0].
+              intros Ew. assert (Hh : holds hash idx nslots nstripes s (g_pc s w) = Some (tab, i)) by (rewrite Ew; cbn [holds]; unfold hm in E0; rewrite E0; reflexivity).
+              pose proof (xi_lockA _ _ _ _ s HI w tab i Hh) as L. rewrite L in *. discriminate. }
+            { intros w cx pos nv. destruct (Nat.eq_dec (hm s tab (cx_k cx)) i) as [E0|E0]; [left|right; exact E0].
+              intros Ew. assert (Hh : holds hash idx nslots nstripes s (g_pc s w) = Some (tab, i)) by (rewrite Ew; cbn [holds]; unfold hm in E0; rewrite E0; reflexivity).
+              pose proof (xi_lockA _ _ _ _ s HI w tab i Hh) as L. rewrite L in *. discriminate. }
+            apply (proj2 (S2 k v)). split; [exact Hvis | exact Hi0].
+        + (* PG_Unlock: the visitor is called on the entries taken *)
+          destruct Hj as [-> [Hlt Heq]]. cbn [valid] in Hv. destruct Hv as [Hv1 Hv2].
+          assert (Hk : hm s tab k < x_len (tab_at s tab)) by (unfold hm, XMachine.home; apply Hidx; apply (xi_wf _ _ _ _ s HI tab Hv1)).
+          assert (Hvs : hm s tab k <= i -> In (k, v) (allvis t (acc ++ XStep t KUnlock :: map (fun kv => XVisit t (fst kv) (snd kv)) snap))).
+          { intros Hle. rewrite allvis_app. apply in_or_app. destruct (Nat.eq_dec (hm s tab k) i) as [E0|E0].
+            - right. cbn [allvis]. rewrite allvis_map. apply Heq. exact E0.
+            - left. apply Hlt. lia. }
+          step_cases3 E; rewrite ?goto_state3 in Hfr; cbn [norm] in Hfr.
+          * right. cbn [set_pc g_pc norm]. destruct (Nat.eq_dec t t) as [_|Hc]; [|exfalso; apply Hc; reflexivity].
+            split; [reflexivity|]. rewrite (hm_frame s _ tab k Hfr Hv1). intros Hl. apply Hvs. lia.
+          * left. match goal with H : Nat.ltb _ _ = false |- _ => apply Nat.ltb_ge in H end.
+            rewrite app_assoc, allvis_app. apply in_or_app. left. apply Hvs. lia.
+      - (* another thread *)
+        assert (Hfr : frame s s').
+        { unfold XMachine.xstep in E. destruct (g_pc s u) eqn:Hp; try (eapply step_frame; exact E).
+          destruct (g_todo s u) as [|o rest]; [discriminate|].
+          match type of E with match step_pc ?s1 u ?q with _ => _ end = _ => destruct (step_pc s1 u q) as [[s2 ls2]|] eqn:E2 end.
+          - inversion E; subst. eapply f_trans; [|eapply step_frame; exact E2]. split; [cbn; lia | intros; apply shape_refl].
+          - inversion E; subst. split; [cbn; lia | intros; apply shape_refl]. }
+        assert (Hpc : g_pc s' t = g_pc s t \/ g_pc s' t = wake (g_pc s t)).
+        { unfold XMachine.xstep in E. pose proof (xi_valid _ _ _ _ s HI u) as Hv. destruct (g_pc s u) eqn:Hp;
+            try (rewrite <- Hp in Hv; rewrite <- Hp in E;
+                 destruct (step_misc eqd hash idx tag nslots seeds grow_needed shrink_policy probe nstripes minlen grow_only s u _ s' ls E Hv) as [_ [_ [_ Ho]]];
+                 apply Ho; intros Eq; apply Hne; congruence).
+          destruct (g_todo s u) as [|o rest]; [discriminate|].
+          match type of E with match step_pc ?s1 u ?q with _ => _ end = _ => set (S1 := s1) in *; destruct (step_pc S1 u q) as [[s2 ls2]|] eqn:E2 end.
+          - inversion E; subst.
+            assert (Hv1 : valid hash idx nslots nstripes S1 (start_pc o)) by (destruct o; cbn; auto; try (destruct lie; cbn; auto)).
+            destruct (step_misc eqd hash idx tag nslots seeds grow_needed shrink_policy probe nstripes minlen grow_only S1 u _ s' ls2 E2 Hv1) as [_ [_ [_ Ho]]].
+            assert (E1 : g_pc S1 t = g_pc s t) by (unfold S1; cbn [g_pc]; destruct (Nat.eq_dec t u); [exfalso; apply Hne; congruence | reflexivity]).
+            rewrite <- E1. apply Ho. intros Eq. apply Hne. congruence.
+          - inversion E; subst. left. unfold S1. cbn [g_pc]. destruct (Nat.eq_dec t u); [exfalso; apply Hne; congruence | reflexivity]. }
+        right. pose proof (xi_valid _ _ _ _ s HI t) as Hv.
+        assert (Ew : g_pc s' t = g_pc s t).
+        { destruct Hpc as [E0|E0]; [exact E0|]. rewrite E0. destruct (g_pc s t); try reflexivity; contradiction. }
+        rewrite Ew. destruct (g_pc s t) eqn:Hp; try contradiction; cbn [valid] in Hv.
+        + destruct Hj as [-> Hlt]. destruct Hv as [Hv1 _]. split; [reflexivity|]. rewrite (hm_frame s s' tab k Hfr Hv1).
+          intros Hl. rewrite allvis_app. apply in_or_app. left. apply Hlt. exact Hl.
+        + destruct Hj as [-> [Hlt Heq]]. destruct Hv as [Hv1 _]. split; [reflexivity|]. rewrite (hm_frame s s' tab k Hfr Hv1).
+          split; [|exact Heq]. intros Hl. rewrite allvis_app. apply in_or_app. left. apply Hlt. exact Hl.
+    Qed.
+
+    Lemma JP_run sched : forall s acc, XI5 s -> along (fun s => vis (tab_at s tab) k v) s sched -> JP s acc ->
+      JP (fst (xrun s sched)) (acc ++ snd (xrun s sched)).
+    Proof.
+      induction sched as [|u rest IH]; intros s acc H5 Hal HJ; cbn [XMachine.xrun]; [cbn [fst snd]; rewrite app_nil_r; exact HJ|].
+      cbn [along] in Hal. destruct Hal as [Hv Hal].
+      destruct (xstep s u) as [[s' ls]|] eqn:E.
+      - pose proof (XI5_xstep eqd hash idx tag nslots seeds grow_needed shrink_policy probe nstripes minlen grow_only
+                      Hidx Hstripes Hminlen Hnslots Hprobe_sound Hprobe_complete s u s' ls H5 E) as H5'.
+        destruct H5 as [[HI [_ [HT HC]]] _].
+        specialize (IH s' (acc ++ ls) H5' Hal (JP_step s acc u s' ls HI HT HC Hv HJ E)).
+        destruct (XMachine.xrun _ _ _ _ _ _ _ _ _ _ _ _ s' rest) as [s'' ls']. cbn [fst snd] in *. rewrite app_assoc. exact IH.
+      - apply IH; assumption.
+    Qed.
+  End Complete.
+
+  (* C07, completeness: a traversal stands before bucket 0 of table tab; if (k, v) is visible in that
+     table in every state the run goes through, then by the time the traversing thread is idle again
+     the visitor has been called with (k, v) -- whatever the other threads did meanwhile *)
+  Theorem range_complete len0 todo sched0 sched t tab k v : 0 < len0 ->
+    let s0 := fst (xrun (xinit nslots seeds nstripes len0 todo) sched0) in
+    g_pc s0 t = PG_Lock tab 0 ->
+    along (fun s => vis (tab_at s tab) k v) s0 sched ->
+    g_pc (fst (xrun s0 sched)) t = PIdle ->
+    In (k, v) (allvis t (snd (xrun s0 sched))).
+  Proof.
+    intros Hl s0 Hp Hal Hend.
+    assert (H5 : XI5 s0) by apply (reachable_inv5 eqd hash idx tag nslots seeds grow_needed shrink_policy probe nstripes minlen grow_only
+               Hidx Hstripes Hminlen Hnslots Hprobe_sound Hprobe_complete len0 todo sched0 Hl).
+    pose proof (JP_run t tab k v sched s0 [] H5 Hal) as H. cbn [app] in H.
+    destruct H as [H|H].
+    - right. rewrite Hp. split; [reflexivity|]. intros Hc. inversion Hc.
+    - exact H.
+    - rewrite Hend in H. contradiction.
+  Qed.
 End Range.
 
 (* ---------------- the statements of props/C07.v ---------------- *)
@@ -493,6 +641,19 @@ Section Final.
   Proof.
     intros [[H1 [H2 H3]] [H4 [H5 H6]]] len0 todo sched t Hl.
     apply (range_once eqd hash idx tag nslots seeds grow_needed shrink_policy probe nstripes minlen grow_only H1 H2 H3 H4 H5 H6 len0 todo sched t Hl).
+  Qed.
+
+  Lemma range_complete_proof :
+    xhyps4 idx nstripes minlen nslots probe -> forall len0 todo sched0 sched t tab k v, 0 < len0 ->
+    let s0 := fst (xrun (xinit nslots seeds nstripes len0 todo) sched0) in
+    g_pc s0 t = PG_Lock tab 0 ->
+    along eqd hash idx tag nslots seeds grow_needed shrink_policy probe nstripes minlen grow_only
+          (fun s => X_lin.vis hash idx (tab_at nslots nstripes s tab) k v) s0 sched ->
+    g_pc (fst (xrun s0 sched)) t = PIdle ->
+    In (k, v) (allvis t (snd (xrun s0 sched))).
+  Proof.
+    intros [[H1 [H2 H3]] [H4 [H5 H6]]] len0 todo sched0 sched t tab k v Hl.
+    apply (range_complete eqd hash idx tag nslots seeds grow_needed shrink_policy probe nstripes minlen grow_only H1 H2 H3 H4 H5 H6 len0 todo sched0 sched t tab k v Hl).
   Qed.
 
   Lemma range_snapshot_proof :
